@@ -118,6 +118,7 @@ class Net(object):
         self.mode = 'ok'
         self.script = []
         self.opens = 0
+        self.own_tid = None                   # MBAP framing: the two id bytes this transaction is supposed to put on the wire
         self.reset_log()
 
     def reset_log(self):
@@ -158,12 +159,19 @@ class Net(object):
         if not r['send']:
             raise BrokenPipeError(32, 'scripted send failure')
         self.writes.append(list(data))
+        now, late = r['now'], r['late']
+        if self.own_tid is not None and bytes(data[:2]) != self.own_tid:
+            # a peer echoes the transaction id it RECEIVED: the frames scripted as answers to this transaction (they carry the id
+            # the transaction should have sent) go out with the id that was really on the wire.  Never taken on the unchanged code.
+            def echo(c):
+                return list(data[:2]) + list(c[2:]) if bytes(c[:2]) == self.own_tid else c
+            now, late = [echo(c) for c in now], [echo(c) for c in late]
         if self.kind == 'udp':
-            self.dgrams.extend(bytes(c) for c in r['now'])
+            self.dgrams.extend(bytes(c) for c in now)
         else:
-            for c in r['now']:
+            for c in now:
                 self.inbuf.extend(c)
-        self.late = [list(c) for c in r['late']]
+        self.late = [list(c) for c in late]
         self.mode = r['recv']
         return len(data)
 
@@ -385,13 +393,21 @@ def run_real(case):
         client = mk_client(cfg)
         net.client = client
         client.transaction.tid = case.get('tid0', 0)
-        for call in case['calls']:
+        last_req = None
+        for ncall, call in enumerate(case['calls']):
             net.script = [dict(r) for r in call['script']]
+            if cfg['framer'] == 'tcp':
+                own = (case.get('tid0', 0) + ncall + 1) & 0xFFFF
+                net.own_tid = bytes([own >> 8, own & 255])
             net.reset_log()
             clock.ops = 0
             clock.t += 10.0                       # the application does something else between two calls
             t0 = clock.t
-            req = prebuilt(msggen.mk_req(call['req'])) if call.get('prebuilt') else msggen.mk_req(call['req'])
+            if call.get('reuse') and last_req is not None:
+                req = last_req            # the very object of the previous call
+            else:
+                req = prebuilt(msggen.mk_req(call['req'])) if call.get('prebuilt') else msggen.mk_req(call['req'])
+            last_req = req
             req.unit_id = call['unit']
             out, exc = None, None
             try:
@@ -656,14 +672,16 @@ def gen_unit(rng):
     return rng.choice([1, 1, 5, 17, 247, 0, 255, rng.randrange(1, 248)])
 
 
-def gen_call(rng, cfg, tid, kinds=None, nreact=None, unit=None, t=None):
-    """one call: request, unit, script of reactions (one per possible transmission)"""
+def gen_call(rng, cfg, tid, kinds=None, nreact=None, unit=None, t=None, fixed=None):
+    """one call: request, unit, script of reactions (one per possible transmission); `fixed` = (req, resp) to use"""
     for _ in range(50):
-        req, resp = gen_pair(rng, t)
-        if kinds is not None and 'full' not in kinds and rng.random() < 0.3:
+        req, resp = fixed if fixed is not None else gen_pair(rng, t)
+        arbitrary = False
+        if fixed is None and kinds is not None and 'full' not in kinds and rng.random() < 0.3:
             # requests with arbitrary field values (quantities 0 / 0xFFFF, any sub-function): only the size prediction
             # and the request frame depend on them
             req = msggen.gen_req(rng, req['t'])
+            arbitrary = True
         u = gen_unit(rng) if unit is None else unit
         n = rng.randrange(0, cfg['retries'] + 2) if nreact is None else nreact
         ks = [rng.choice(kinds or REACTION_KINDS) for _ in range(n)]
@@ -675,12 +693,31 @@ def gen_call(rng, cfg, tid, kinds=None, nreact=None, unit=None, t=None):
         if expected_reply({'expect': resp, 'unit': u}, cfg['framer'], tid) is None:
             continue
         call = {'req': req, 'unit': u, 'script': rs, 'kinds': ks, 'resp': resp}
+        if arbitrary:
+            call['arbitrary'] = True      # `resp` is not the reply to `req` (generator bookkeeping, not part of the case)
         if req['t'] in ('writeRegister', 'writeRegisters') and rng.random() < 0.35:
             # the application hands over an already encoded payload (BinaryPayloadBuilder.build() + skip_encode=True): the same
             # bytes go out, the request object holds bytes where it otherwise holds ints
             call['prebuilt'] = True
         return call
     raise RuntimeError('no clean frame found')
+
+
+def again_call(rng, cfg, tid, prev, kinds=None, nreact=None):
+    """a polling loop: the application executes the SAME request object again (a new transaction: new id on the wire, the reply
+    carries that id).  None if no clean frames could be built."""
+    if prev.get('arbitrary'):
+        return None
+    try:
+        again = gen_call(rng, cfg, tid, kinds=kinds, nreact=nreact, unit=prev['unit'], fixed=(prev['req'], prev['resp']))
+    except RuntimeError:
+        return None
+    again['reuse'] = True
+    if prev.get('prebuilt'):
+        again['prebuilt'] = True
+    else:
+        again.pop('prebuilt', None)
+    return again
 
 
 def gen_case(rng, ncalls=None, cfg=None):
@@ -691,6 +728,12 @@ def gen_case(rng, ncalls=None, cfg=None):
     same_unit = gen_unit(rng) if rng.random() < 0.6 else None
     for _ in range(n):
         tid = (tid + 1) & 0xFFFF
+        if calls and rng.random() < 0.2:
+            # a polling loop: the application executes the SAME request object again (new transaction, new id on the wire)
+            again = again_call(rng, cfg, tid, calls[-1])
+            if again is not None:
+                calls.append(again)
+                continue
         calls.append(gen_call(rng, cfg, tid, unit=same_unit))
     return {'cfg': cfg, 'tid0': tid0, 'calls': calls}
 
@@ -707,7 +750,7 @@ def canon_obs(o):
 def strip_case(c):
     """the replayable part of a case (no generator bookkeeping)"""
     return {'cfg': c['cfg'], 'tid0': c.get('tid0', 0), 'kind': c.get('kind', 'history'),
-            'calls': [{k: v for k, v in call.items() if k in ('req', 'unit', 'script', 'expect', 'resp', 'kinds', 'prebuilt')}
+            'calls': [{k: v for k, v in call.items() if k in ('req', 'unit', 'script', 'expect', 'resp', 'kinds', 'prebuilt', 'reuse')}
                       for call in c['calls']]}
 
 
